@@ -143,7 +143,8 @@ theorem members_norm_eq (src : Source) (wf : SrcWF src) (rp rp' : RPar) (hrp : r
 /-- The parent of the result for new bounds inside the source's bounds: `_subset_parent` succeeds and carries, in
     normal form, exactly the source's sequence restricted to the new bounds. -/
 theorem subsetParent_spec (src : Source) (wf : SrcWF src) (bs be : Int) (hb : selfBounds src = some (bs, be))
-    (start stop : Int) (hlt : start < stop) (hin : src.par.hasSeq = true → bs ≤ start ∧ stop ≤ be) :
+    (start stop : Int) (hlt : src.par.hasSeq = true → start < stop)
+    (hin : src.par.hasSeq = true → bs ≤ start ∧ stop ≤ be) :
     ∃ rp, subsetParent src start stop = .ok rp ∧ rp.norm = (expectPar src.par start stop).norm ∧
       (∀ a b, rp ≠ .chunk a b []) ∧ RPShape src rp := by
   have hpar := wf.par
@@ -160,6 +161,7 @@ theorem subsetParent_spec (src : Source) (wf : SrcWF src) (bs be : Int) (hb : se
     simp only [Option.some.injEq, Prod.mk.injEq] at hb'
     obtain ⟨rfl, rfl⟩ := hb'
     have hin' := hin (by rw [hp]; rfl)
+    have hlt' := hlt (by rw [hp]; rfl)
     have hr : 0 ≤ start ∧ start < stop ∧ stop ≤ (seq.length : Int) := by omega
     refine ⟨_, subsetParent_whole src seq hp hpar.1 start stop hr, whole_norm_eq_expect seq start stop hr, ?_, ?_⟩
     · intro a b
@@ -182,6 +184,7 @@ theorem subsetParent_spec (src : Source) (wf : SrcWF src) (bs be : Int) (hb : se
     simp only [Option.some.injEq, Prod.mk.injEq] at hb'
     obtain ⟨rfl, rfl⟩ := hb'
     have hin' := hin (by rw [hp]; rfl)
+    have hlt' := hlt (by rw [hp]; rfl)
     have hr : bs ≤ start ∧ start < stop ∧ stop ≤ bs + (seq.length : Int) := by omega
     refine ⟨_, subsetParent_chunk src bs seq hp hpar.1 hpar.2.1 start stop hr,
       chunk_norm_eq_expect bs seq start stop hr, ?_, ?_⟩
@@ -202,5 +205,79 @@ theorem subsetParent_spec (src : Source) (wf : SrcWF src) (bs be : Int) (hb : se
     · by_cases hid : start = bs ∧ stop = bs + (seq.length : Int)
       · simp only [hid, and_self, if_true]; exact ⟨by omega, by rw [hp]; rfl⟩
       · simp only [hid, if_false]; exact ⟨by omega, by rw [hp]; rfl⟩
+
+end BioCantor.Proofs.Query
+
+namespace BioCantor.Proofs.Query
+open BioCantor BioCantor.Spec BioCantor.Spec.Query BioCantor.Model.Query
+
+theorem specFilter_perm {l₁ l₂ : List Child} (h : l₁.Perm l₂) (co cw : Bool) (s e : Int) :
+    (specFilter l₁ co cw s e).Perm (specFilter l₂ co cw s e) := h.filter _
+
+theorem nodup_guid_filter {l : List Child} (h : (l.map Child.guid).Nodup) (p : Child → Bool) :
+    ((l.filter p).map Child.guid).Nodup := by
+  rw [List.nodup_iff_pairwise_ne, List.pairwise_map] at *
+  exact List.Pairwise.filter p h
+
+/-- building the result of a query whose kept members are (a permutation of) `keptS ⊆ src.children` -/
+theorem buildNew_meets (src : Source) (wf : SrcWF src) (bs be : Int) (hb : selfBounds src = some (bs, be))
+    (keptM keptS : List Child) (hperm : keptM.Perm keptS) (hsub : ∀ c ∈ keptS, c ∈ src.children)
+    (hnd : (keptS.map Child.guid).Nodup)
+    (start stop : Int) (hlt : src.par.hasSeq = true → start < stop)
+    (hin : src.par.hasSeq = true → bs ≤ start ∧ stop ≤ be) :
+    ∃ r, buildNew src keptM start stop = .ok r ∧ r.norm = (expectResult src start stop keptS).norm := by
+  obtain ⟨rp, hsp, hnorm, hne, hshape⟩ := subsetParent_spec src wf bs be hb start stop hlt hin
+  refine ⟨_, buildNew_eq src keptM start stop rp hsp hne
+    (fun c hc => wf.hull c (hsub c (hperm.mem_iff.mp hc))), ?_⟩
+  unfold expectResult
+  exact result_norm_eq keptM keptS hperm hnd rp _ hnorm
+    (fun c hc => members_norm_eq src wf rp _ hnorm hshape c (hsub c hc)) start stop
+
+/-- T1 + T2 (position queries): on every well-formed source with bounds, for ALL ranges and flag combinations, the
+    modelled `query_by_position` gives an answer the specification accepts. -/
+theorem queryByPosition_meets (src : Source) (q : PosQ) (wf : SrcWF src) (b : Int × Int)
+    (hb : selfBounds src = some b)
+    (hco : q.codingOnly = true → ∀ c ∈ src.children, c.kind ≠ .var) :
+    okQueryByPosition src q (toAns (queryByPosition src q)) = true := by
+  obtain ⟨bs, be⟩ := b
+  unfold okQueryByPosition expectQueryByPosition
+  rw [specBounds_eq_self hb]
+  simp only []
+  unfold queryByPosition
+  rw [validate_eq src q.s q.e bs be hb]
+  by_cases hv : validRange bs be (optOr q.s bs) (optOr q.e be) = true
+  · obtain ⟨h0, hse, h1, h2⟩ := (validRange_iff _ _ _ _).mp hv
+    have hkept := queryKept_eq src (optOr q.s bs) (optOr q.e be) q.cw q.codingOnly h0 hse
+      (fun c hc => (wf.hull c hc).wf) hco
+    have hpermK := specFilter_perm (iterChildren_perm src) q.codingOnly q.cw (optOr q.s bs) (optOr q.e be)
+    have hbnd := resultBounds_eq_model q (optOr q.s bs) (optOr q.e be) _ _ hpermK
+    have hcont := resultBounds_contains q (optOr q.s bs) (optOr q.e be)
+      (specFilter src.children q.codingOnly q.cw (optOr q.s bs) (optOr q.e be))
+    simp only [hv, if_true, not_true_eq_false, if_false, bind, Except.bind, needBounds_of hb, hkept]
+    simp only [Bool.not_eq_true] at hbnd
+    simp only [Bool.not_eq_true, hbnd]
+    generalize hrb : resultBounds q (optOr q.s bs) (optOr q.e be)
+      (specFilter src.children q.codingOnly q.cw (optOr q.s bs) (optOr q.e be)) = nb at *
+    obtain ⟨ns, ne⟩ := nb
+    simp only at hcont ⊢
+    by_cases hex : src.par.hasSeq = true ∧ (ns < bs ∨ ne > be)
+    · have hex' : src.par.hasSeq = true ∧ (ns < bs ∨ be < ne) := by
+        refine ⟨hex.1, ?_⟩; rcases hex.2 with h | h; exact Or.inl h; exact Or.inr (by omega)
+      simp only [hex, hex', if_true]
+      rfl
+    · have hex' : ¬ (src.par.hasSeq = true ∧ (ns < bs ∨ be < ne)) := by
+        intro h; apply hex; refine ⟨h.1, ?_⟩; rcases h.2 with h | h; exact Or.inl h; exact Or.inr (by omega)
+      simp only [hex, hex', if_false]
+      obtain ⟨r, hr, hrn⟩ := buildNew_meets src wf bs be hb _ _ hpermK
+        (fun c hc => (List.mem_filter.mp hc).1)
+        (nodup_guid_filter wf.guids _) ns ne (fun _ => by omega)
+        (fun hs => by
+          have : ¬ (ns < bs ∨ ne > be) := fun h => hex ⟨hs, h⟩
+          omega)
+      rw [hr]
+      simp only [toAns, meets, beq_iff_eq]
+      exact hrn
+  · simp only [hv, if_false, Bool.false_eq_true]
+    rfl
 
 end BioCantor.Proofs.Query
